@@ -326,8 +326,15 @@ def r6_class_and_original(ctx) -> None:
             r.ok("C03.R6", f.qual, f"new strings via self.__class__() ({len(own)} site(s))", loc)
         else:
             r.violation("C03.R6", f.qual, f"def {name}", "method no longer instantiates self.__class__ for its result", loc)
+    # operands of another string class: '+' accepts every SigmaString and keeps the class of the left operand
+    addf = sc.methods["__add__"]
+    tests = [unparse(n.test) for n in walk_no_nested(addf.node) if isinstance(n, ast.If)]
+    if any(t == "isinstance(other, SigmaString)" for t in tests):
+        r.ok("C03.R6", addf.qual, "isinstance(other, SigmaString): strings of both classes can be joined, result class = left operand", addf.loc)
+    else:
+        r.violation("C03.R6", addf.qual, f"operand tests {tests}", "'+' accepts a string operand only if it is of the left operand's own class: a case-sensitive string cannot be joined with the plain strings placeholder replacement produces (TypeError for expand|cased with a value list)", addf.loc)
     original_reads(ctx, "C03.R6")
-    r.floor("C03.R6", 7)
+    r.floor("C03.R6", 8)
 
 
 def original_reads(ctx, rid: str) -> None:
